@@ -2,6 +2,7 @@
 package c18
 
 import (
+	"bytes"
 	"errors"
 	"fmt"
 	"io"
@@ -309,6 +310,7 @@ type expected struct {
 	list   cedar.PolicyList
 	err    error
 	render []string
+	after  []string // what further Decode calls return after the first error, reading the document in one piece
 }
 
 func whole(d doc) expected {
@@ -317,7 +319,45 @@ func whole(d doc) expected {
 	for _, p := range l {
 		e.render = append(e.render, string(p.MarshalCedar()))
 	}
+	if err != nil {
+		_, _, _, e.after = decodeMore(bytes.NewReader(d.src))
+	}
 	return e
+}
+
+// decodeMore is decodeAll followed, after the first error, by three more Decode calls on the
+// same Decoder: what they return (an error, or a policy) must not depend on how the reader
+// delivered the bytes either.
+func decodeMore(r io.Reader) (out []*cedar.Policy, err error, panicked any, after []string) {
+	defer func() {
+		if x := recover(); x != nil {
+			panicked = x
+		}
+	}()
+	dec := cedar.NewDecoder(r)
+	for {
+		var p cedar.Policy
+		if e := dec.Decode(&p); e != nil {
+			if e == io.EOF {
+				return out, nil, nil, nil
+			}
+			err = e
+			break
+		}
+		out = append(out, &p)
+		if len(out) > 10000 {
+			panic(livelock{})
+		}
+	}
+	for k := 0; k < 3; k++ {
+		var p cedar.Policy
+		if e := dec.Decode(&p); e != nil {
+			after = append(after, "error: "+e.Error())
+		} else {
+			after = append(after, "policy: "+string(p.MarshalCedar())+fmt.Sprintf(" at %+v", p.Position()))
+		}
+	}
+	return out, err, nil, after
 }
 
 func decodeAll(r io.Reader) (out []*cedar.Policy, err error, panicked any) {
@@ -343,7 +383,7 @@ func decodeAll(r io.Reader) (out []*cedar.Policy, err error, panicked any) {
 }
 
 func compare(t *core.T, d doc, exp expected, r *schedReader, sched string) {
-	got, err, pn := decodeAll(r)
+	got, err, pn, after := decodeMore(r)
 	in := func() string {
 		return fmt.Sprintf("document %s (%d bytes), reader schedule %s [reads: %s]", d.name, len(d.src), sched, strings.Join(r.trace, ","))
 	}
@@ -369,6 +409,8 @@ func compare(t *core.T, d doc, exp expected, r *schedReader, sched string) {
 			t.Fail("invalid-document-accepted-by-decoder:"+kind(d), in(), exp.err.Error(), fmt.Sprintf("%d policies, io.EOF", len(got)))
 		} else if !strings.Contains(exp.err.Error(), err.Error()) {
 			t.Fail("decoder-error-differs:"+kind(d), in(), exp.err.Error(), err.Error())
+		} else if fmt.Sprint(after) != fmt.Sprint(exp.after) {
+			t.Fail("decoder-calls-after-error-depend-on-chunking:"+kind(d), in(), fmt.Sprint(exp.after), fmt.Sprint(after))
 		}
 		return
 	}
